@@ -122,6 +122,7 @@ def run(tier):
     broken = {tag: mc.printed(tag) for tag in ("TYPESOUND", "PROGRESS", "SUBJECTNAMES")}
     posrej = mc.printed("POSREJ")
     negacc = mc.printed("NEGACC")
+    dishonest = mc.printed("DISHONEST")
     if any(broken.values()) or '"CASES"' not in mc.out:
         for tag, items in broken.items():
             for it in items[:5]:
@@ -192,13 +193,17 @@ def run(tier):
     cov["by_suite"] = by_suite
     cov["kinds"] = dict(kinds)
     cov["kinds_legend"] = ("a=: both accept, equal types; a: both accept, fold-sensitive program, implementation strictly more "
-                           "precise (D1/D2); c-fold: fold-sensitive program accepted by the implementation only (D5); d: both reject; "
+                           "precise (D1/D2); c-fold: fold-sensitive program accepted by the implementation only (D5); b-decl / c-decl: a function "
+                           "literal bound to a name its body mentions is a declaration in the text (D8); d: both reject; "
                            "d-syntax: rejected AST not in the grammar; fold: constant sub-expression failed while folded (D4); "
                            "a-dev / a-narrow / b / c / panic: deviations")
     cov["fold_sensitive_programs"] = n_sensitive
     cov["implementation_checker"] = summary
     cov["generated_programs"] = 3 * n_gen
     cov["negatives_accepted_by_the_specification"] = {"count": len(negacc), "ids": [x["id"] for x in negacc[:12]]}
+    cov["accepted_programs_with_dishonest_annotations_not_judged_dynamically"] = {
+        "count": len(dishonest), "ids": [x["id"] for x in dishonest[:12]],
+        "note": "untyped `mut e' whose stated cell type is not TypeOf(e), or `$+'/`$*' with the wrong element kind (near-miss programs)"}
     cov["positives_rejected_by_the_specification"] = {"count": len(posrej), "ids": [x["id"] for x in posrej[:12]]}
     cov["implementation_strictly_more_precise"] = {"count": len(wider),
                                                    "samples": [{"id": w["id"], "spec": w["spec"], "impl": w["impl"]} for w in wider[:6]]}
@@ -211,7 +216,7 @@ def run(tier):
         "TLC/SANY/CommunityModules are correct",
         "harness/src/render.rs (AST -> source text) is faithful; wire.rs type conversion is faithful",
         "relation: accepted by both => equal static types; for fold-sensitive programs Matches(implementation's type, TypeOf); "
-        "named differences D1..D7 in spec/Static.tla",
+        "named differences D1..D8 in spec/Static.tla",
         "a rejection of the implementation with the class of a run-time error (constant folding, D4) is not compared",
         "Lang.tla's `tick'/`mark' need the log cell: Static.tla rejects a program that shadows `log' and then ticks"]
     return chk.finish()
